@@ -339,13 +339,13 @@ Qed.
 
 Lemma equals_loop_sim es c s : rel c s ->
   equals_loop es c = RBool (forallb (fun kv => match s_lookup (sents s) (fst kv) with
-                                               | Some v => Z.eqb (snd kv) v | None => false end) es).
+                                               | Some v => val_eqb (snd kv) v | None => false end) es).
 Proof.
   intros R. induction es as [|[k v] r IH]; cbn; [reflexivity|].
   pose proof (rel_lookup c s k R) as L.
   destruct (alookup (index c) k) as [p|].
   - destruct L as (n & v0 & -> & Hp & Hg & Hl). rewrite Hg, Hl; cbn.
-    destruct (Z.eqb v v0); cbn; auto.
+    destruct (val_eqb v v0); cbn; auto.
   - destruct L as (Hp & Hl). now rewrite Hl.
 Qed.
 
@@ -394,7 +394,7 @@ Proof.
   - cbn [skipn]. now apply IH.
 Qed.
 
-Lemma map_const_len {A B} (l : list A) (l' : list B) (c : Z) : length l = length l' ->
+Lemma map_const_len {A B} (l : list A) (l' : list B) (c : val) : length l = length l' ->
   map (fun _ => c) l = map (fun _ => c) l'.
 Proof.
   revert l'; induction l as [|x l IH]; intros [|y l'] H; cbn in *; try discriminate; [reflexivity|].
@@ -818,8 +818,73 @@ Proof. intros H. now apply s_iter_loop_delete_keeps_others. Qed.
    entry, so that Keys still lists the key while Includes denies it *)
 Lemma compute_producer_puts_same_key_refuted :
   exists ops, ops_ok ops = false /\
-    snd (run [] ops) = [RObj 0; RVal (Some 6); RKeys [[97%N]; [97%N]]; RVal (Some 6); RKeys [[97%N]]; RBool false].
+    snd (run [] ops) = [RObj 0; RVal (Some (VInt 6)); RKeys [[97%N]; [97%N]]; RVal (Some (VInt 6)); RKeys [[97%N]]; RBool false].
 Proof.
   exists [ONew; OComputePut 0 [97%N] 6 [97%N] 5; OKeys 0; ODelete 0 [97%N]; OKeys 0; OIncludes 0 [97%N]].
   vm_compute. auto.
 Qed.
+
+
+(* ---- lookups find exactly the present keys - whatever value a key is associated with, the Go nil included ---- *)
+
+Lemma pos_some_in k es n : pos k es = Some n -> In k (map fst es).
+Proof.
+  intros H. destruct (pos_some _ _ _ H) as [v [H1 _]]. apply nth_error_In in H1.
+  change k with (fst (k, v)). now apply in_map.
+Qed.
+
+Lemma s_lookup_present es k : (exists v, s_lookup es k = Some v) <-> In k (map fst es).
+Proof.
+  induction es as [|[k0 v0] r IH]; cbn.
+  - split; [intros [v H]; discriminate|tauto].
+  - destruct (str_eqb_spec k k0) as [->|Hn].
+    + split; [auto|eauto].
+    + rewrite IH. split; [auto|]. intros [H|H]; [congruence|exact H].
+Qed.
+
+Lemma s_lookup_absent es k : s_lookup es k = None <-> ~ In k (map fst es).
+Proof.
+  rewrite <- s_lookup_present. destruct (s_lookup es k) as [v|].
+  - split; [discriminate|]. intros H. exfalso. apply H. eauto.
+  - split; [|reflexivity]. intros _ [v H]. discriminate.
+Qed.
+
+Lemma s_lookup_in es k v : s_lookup es k = Some v -> In (k, v) es.
+Proof.
+  induction es as [|[k0 v0] r IH]; cbn; [discriminate|].
+  destruct (str_eqb_spec k k0) as [->|Hn]; [intros H; inversion H; auto|auto].
+Qed.
+
+(* one hash that satisfies the coupling invariant: what each lookup answers for a present and for an absent key *)
+Definition lookups_exact (c : sh) : Prop :=
+  NoDup (map fst (entries c)) /  forall k,
+    (In k (map fst (entries c)) ->
+       exists v, In (k, v) (entries c) /\ get c k = RVal (Some v) /\ includes c k = true /                 (forall d, get_or_default c k d = RVal (Some v)) /                 (forall w, compute_if_absent c k w = (c, RVal (Some v))) /                 compute_panic c k = (c, RVal (Some v))) /    (~ In k (map fst (entries c)) ->
+       get c k = RVal None /\ includes c k = false /       (forall d, get_or_default c k d = RVal (Some d)) /       (frozen c = false -> delete c k = (c, RVal None))).
+
+Lemma rel_lookups_exact c s : rel c s -> lookups_exact c.
+Proof.
+  intros R. split; [apply R|]. intros k.
+  pose proof (rel_lookup c s k R) as L. destruct R as (He & Hf & Hn & Hi).
+  unfold get, includes, get_or_default, compute_if_absent, compute_panic, delete.
+  destruct (alookup (index c) k) as [p|].
+  - destruct L as (n & v & -> & Hp & Hg & Hl). split.
+    + intros _. exists v. rewrite Hg. cbn [snd]. repeat split; auto.
+      rewrite He. now apply s_lookup_in.
+    + intros Hni. exfalso. apply Hni. eapply pos_some_in; eauto.
+  - destruct L as (Hp & Hl). split.
+    + intros Hin. exfalso. revert Hin. now apply pos_none_notin.
+    + intros _. repeat split; auto. intros ->. reflexivity.
+Qed.
+
+Theorem lookups_find_exactly_present_keys ops : ops_ok ops = true ->
+  forall i c, nth_error (fst (run [] ops)) i = Some c -> lookups_exact c.
+Proof.
+  intros Hok i c Hc. destruct (stringhash_inv ops Hok) as [sp H].
+  pose proof (hrel_nth _ _ i H) as Hn. rewrite Hc in Hn.
+  destruct (nth_error sp i) as [s|]; [|contradiction]. eapply rel_lookups_exact; eauto.
+Qed.
+
+(* Len counts the keys, each once *)
+Lemma len_counts_keys c : length (entries c) = length (map fst (entries c)).
+Proof. now rewrite map_length. Qed.
